@@ -384,8 +384,8 @@ func (c Collection) Equals(with Item) bool {
 	}
 	result := true
 	err := OnCollection(with, func(w *Collection) error {
-		_ = OnObject(w, func(wo *Object) error {
-			if !wo.Equals(c) {
+		_ = OnObject(c, func(co *Object) error {
+			if !co.Equals(w) {
 				result = false
 				return nil
 			}
